@@ -66,6 +66,13 @@ def gen_names(ctx: Ctx) -> list[str]:
     return names
 
 
+def forms(names):
+    """every name both as `str` and as `PurePosixPath` (the handlers' signatures allow both)"""
+    for n in names:
+        yield n, n, "str"
+        yield n, pathlib.PurePosixPath(n), "pure"
+
+
 def nontrivial(name: str, sd: str = "/") -> bool:
     comps = name.split("/")
     return any(c in ("..", ".", "") or not c.isalnum() for c in comps) or sd not in ("/", "", ".")
@@ -235,18 +242,18 @@ def run(ctx: Ctx) -> Outcome:
         with patched_fs(rec):
             fh = fh_local.LocalFileHandler(root, subdir=sd)
             base = str(fh.path)
-            for n in hnames:
-                calls = observe(lambda: fh.open(n, "rb"))
+            for n, arg, form in forms(hnames):
+                calls = observe(lambda: fh.open(arg, "rb"))
                 t_open = [p for k, p in calls if k == "open"]
-                judge("local", "open", sd, n, str(root), t_open)
+                judge("local", "open-" + form, sd, n, str(root), t_open)
                 rel = [c for c in (t_open[0][len(str(root)):].split("/") if t_open else []) if c]
                 add("target.local", [sd, n], {"op": "path.target", "handler": "local", "subdir": sd, "name": n}, rel)
-                out.case(("local", sd, n), nontrivial=nontrivial(n, sd))
+                out.case(("local", sd, n, form), nontrivial=nontrivial(n, sd))
                 out.traces_validated += 1
-            for n in hnames[:: ctx.pick(7, 1)]:
+            for n, arg, form in forms(hnames[:: ctx.pick(7, 1)]):
                 def wr():
                     with fh.write_transaction():
-                        fh.open(n, "wb")
+                        fh.open(arg, "wb")
                 calls = observe(wr)
                 touched = [p for k, p in calls if k in ("open", "unlink", "replace", "replace-to")]
                 judge("local", "write", sd, n, str(root), touched)
@@ -260,15 +267,15 @@ def run(ctx: Ctx) -> Outcome:
         # ---- memory
         fh = fh_mem.MemoryFileHandler(subdir=sd)
         fh._data = RecDict(rec)
-        for n in hnames:
-            calls = observe(lambda: fh.open(n, "wb"))
+        for n, arg, form in forms(hnames):
+            calls = observe(lambda: fh.open(arg, "wb"))
             keys = [p for k, p in calls if k == "mem-set"]
-            judge("memory", "open-w", sd, n, "", ["/" + k if k != "." else "/" for k in keys])
+            judge("memory", "open-w-" + form, sd, n, "", ["/" + k if k != "." else "/" for k in keys])
             add("target.memory", [sd, n], {"op": "path.target", "handler": "memory", "subdir": sd, "name": n},
                 [c for c in (keys[0].split("/") if keys else []) if c and c != "."])
-            calls = observe(lambda: fh.open(n, "rb"))
-            judge("memory", "open-r", sd, n, "", ["/" + p if p != "." else "/" for k, p in calls if k == "mem-get"])
-            out.case(("memory", sd, n), nontrivial=nontrivial(n, sd))
+            calls = observe(lambda: fh.open(arg, "rb"))
+            judge("memory", "open-r-" + form, sd, n, "", ["/" + p if p != "." else "/" for k, p in calls if k == "mem-get"])
+            out.case(("memory", sd, n, form), nontrivial=nontrivial(n, sd))
             out.traces_validated += 1
         # ---- zip
         fh = fh_zip.ZipFileHandler(str(zpath), subdir=sd)
@@ -278,13 +285,13 @@ def run(ctx: Ctx) -> Outcome:
             rec.rec("zip-open", name)
             return orig_open(name, *a, **k)
         zf.open = zopen
-        for n in hnames:
-            calls = observe(lambda: fh.open(n, "rb"))
+        for n, arg, form in forms(hnames):
+            calls = observe(lambda: fh.open(arg, "rb"))
             zn = [p for k, p in calls if k == "zip-open"]
-            judge("zip", "open", sd, n, "", ["/" + p if p != "." else "/" for p in zn])
+            judge("zip", "open-" + form, sd, n, "", ["/" + p if p != "." else "/" for p in zn])
             add("target.zip", [sd, n], {"op": "path.target", "handler": "zip", "subdir": sd, "name": n},
                 [c for c in (zn[0].split("/") if zn else []) if c and c != "."])
-            out.case(("zip", sd, n), nontrivial=nontrivial(n, sd))
+            out.case(("zip", sd, n, form), nontrivial=nontrivial(n, sd))
             out.traces_validated += 1
         # ---- http
         fh = fh_http.HTTPFileHandler("https://h.invalid/base/%s", subdir=sd)
@@ -292,8 +299,8 @@ def run(ctx: Ctx) -> Outcome:
             rec.rec("http-get", url)
             raise FileNotFoundError(url)
         fh.session.get = fake_get
-        for n in hnames[:: ctx.pick(3, 1)]:
-            calls = observe(lambda: fh.open(n))
+        for n, arg, form in forms(hnames[:: ctx.pick(3, 1)]):
+            calls = observe(lambda: fh.open(arg))
             urls = [p for k, p in calls if k == "http-get"]
             for u in urls:
                 pre = "https://h.invalid/base/"
@@ -305,11 +312,16 @@ def run(ctx: Ctx) -> Outcome:
                 if bad:
                     out.find("http.open|url-escapes-base", f"http subdir={sd!r} open({n!r}) requested {u!r}",
                              {"kind": "http", "subdir": sd, "name": n, "url": u})
+                # the file name must be percent-encoded into the placeholder: exactly the quoted components
+                exact = "/".join(urllib.parse.quote(c, safe="") for c in expected_subdir(sd) + expected_subdir(n))
+                if tail != exact:
+                    out.find("http.open|name-not-percent-encoded", f"http subdir={sd!r} open({n!r}) requested ...{tail!r}, expected ...{exact!r}",
+                             {"kind": "http", "subdir": sd, "name": n, "url": u})
             tail = urls[0][len("https://h.invalid/base/"):] if urls else None
             # model: quote(true, '/'.join(target))
             add("http.%s", [sd, n], {"op": "path.target", "handler": "http", "subdir": sd, "name": n},
                 None if tail is None else [urllib.parse.unquote(c) for c in tail.split("/") if c])
-            out.case(("http", sd, n), nontrivial=nontrivial(n, sd))
+            out.case(("http", sd, n, form), nontrivial=nontrivial(n, sd))
             out.traces_validated += 1
         # ---- glart (init bypassed)
         g = object.__new__(fh_glart.GitlabArtifactsFiles)
@@ -324,16 +336,16 @@ def run(ctx: Ctx) -> Outcome:
             rec.rec("glart-get", url)
             return _Resp()
         g._GitlabArtifactsFiles__rawget = rawget
-        for n in hnames[:: ctx.pick(5, 1)]:
+        for n, arg, form in forms(hnames[:: ctx.pick(5, 1)]):
             g._GitlabArtifactsFiles__cache.clear()  # negative cache would hide the request
-            calls = observe(lambda: g.open(n))
+            calls = observe(lambda: g.open(arg))
             urls = [p for k, p in calls if k == "glart-get"]
             pre = "https://gl.invalid/api/v4/projects/1/jobs/2/artifacts/"
             tails = [u[len(pre):] for u in urls]
             judge("glart", "open", sd, n, "", ["/" + t if t != "." else "/" for t in tails])
             add("target.glart", [sd, n], {"op": "path.target", "handler": "glart", "subdir": sd, "name": n},
                 [c for c in (tails[0].split("/") if tails else []) if c and c != "."])
-            out.case(("glart", sd, n), nontrivial=nontrivial(n, sd))
+            out.case(("glart", sd, n, form), nontrivial=nontrivial(n, sd))
 
     # ---- git (one worktree per subdir; fewer subdirs in quick)
     for sd in (SUBDIRS if ctx.thorough else ["/", "sub", "sub/dir", "../up", "a/../b"]):
@@ -345,13 +357,13 @@ def run(ctx: Ctx) -> Outcome:
         fh_git.open = gopen  # shadows builtins.open inside the module
         try:
             with patched_fs(rec):
-                for n in hnames[:: ctx.pick(2, 1)]:
-                    calls = observe(lambda: fh.open(n, "rb"))
+                for n, arg, form in forms(hnames[:: ctx.pick(2, 1)]):
+                    calls = observe(lambda: fh.open(arg, "rb"))
                     t_open = [p for k, p in calls if k == "git-open"]
-                    judge("git", "open", sd, n, cache, t_open)
+                    judge("git", "open-" + form, sd, n, cache, t_open)
                     rel = [c for c in (t_open[0][len(cache):].split("/") if t_open else []) if c]
                     add("target.git", [sd, n], {"op": "path.target", "handler": "git", "subdir": sd, "name": n}, rel)
-                    out.case(("git", sd, n), nontrivial=nontrivial(n, sd))
+                    out.case(("git", sd, n, form), nontrivial=nontrivial(n, sd))
                     out.traces_validated += 1
                 for n in hnames[:: ctx.pick(9, 2)]:
                     calls = observe(lambda: list(fh.iterdir(n)))
